@@ -327,7 +327,17 @@ def _fold_new_module_constants(tree: ast.Module, known: Set[str]) -> int:
                         counts[n.id] = counts.get(n.id, 0) + 1
             v = st.value
             if len(tg) == 1 and isinstance(tg[0], ast.Name) and v is not None:
-                ok = isinstance(v, ast.Constant) or (isinstance(v, ast.Tuple) and all(isinstance(e, (ast.Constant, ast.Name)) for e in v.elts)) \
+                def lit(x, depth=0):
+                    if isinstance(x, (ast.Constant, ast.Name)):
+                        return True
+                    if isinstance(x, ast.UnaryOp) and isinstance(x.op, ast.USub):
+                        return lit(x.operand, depth)
+                    if isinstance(x, ast.Tuple) and depth < 3:
+                        return all(lit(e, depth + 1) for e in x.elts)
+                    if isinstance(x, ast.Dict) and depth < 2:
+                        return all(k is not None and isinstance(k, ast.Constant) for k in x.keys) and all(lit(e, depth + 1) for e in x.values)
+                    return False
+                ok = lit(v) and not isinstance(v, ast.Name) or (isinstance(v, ast.Tuple) and all(isinstance(e, (ast.Constant, ast.Name)) for e in v.elts)) \
                     or (isinstance(v, ast.UnaryOp) and isinstance(v.op, ast.USub) and isinstance(v.operand, ast.Constant))
                 if ok and tg[0].id not in known:
                     cands[tg[0].id] = v
@@ -335,7 +345,19 @@ def _fold_new_module_constants(tree: ast.Module, known: Set[str]) -> int:
     for n in ast.walk(tree):
         if isinstance(n, ast.Global):
             stored_elsewhere.update(n.names)
-    cands = {k: v for k, v in cands.items() if counts.get(k) == 1 and k not in stored_elsewhere}
+    # a container literal is only a constant while nothing in the module changes it in place
+    touched: Set[str] = set()
+    for n in ast.walk(tree):
+        if isinstance(n, (ast.Subscript, ast.Attribute)) and isinstance(n.ctx, (ast.Store, ast.Del)) and isinstance(n.value, ast.Name):
+            touched.add(n.value.id)
+        if isinstance(n, ast.Call) and isinstance(n.func, ast.Attribute) and isinstance(n.func.value, ast.Name) and n.func.attr in _MUTATORS:
+            touched.add(n.func.value.id)
+        if isinstance(n, ast.AugAssign):
+            for x in ast.walk(n.target):
+                if isinstance(x, ast.Name):
+                    touched.add(x.id)
+    cands = {k: v for k, v in cands.items() if counts.get(k) == 1 and k not in stored_elsewhere
+             and not (isinstance(v, ast.Dict) and (k in touched or not v.keys))}
     if not cands:
         return 0
     k = 0
@@ -674,13 +696,14 @@ def _inline_new_helper_statements(tree: ast.Module, stem: str, ref: dict) -> int
     funcs = functions(tree)
     known = {qn for qn, _ in funcs if f"{stem}:{qn}" in ref}
     helpers = {}
+    generators = {}
     for qn, fn in funcs:
         parts = qn.split(".")
         if qn in known or fn.decorator_list or fn.args.vararg or fn.args.kwarg or fn.args.kwonlyargs or fn.args.posonlyargs or len(parts) > 2:
             continue
         if len(parts) == 2 and not any(isinstance(c, ast.ClassDef) and c.name == parts[0] for c in tree.body):
             continue
-        if any(isinstance(n, (ast.Yield, ast.YieldFrom, ast.Await, ast.Global, ast.Nonlocal)) for n in ast.walk(fn)):
+        if any(isinstance(n, (ast.YieldFrom, ast.Await, ast.Global, ast.Nonlocal)) for n in ast.walk(fn)):
             continue
         if any(isinstance(n, _FUNC + (ast.ClassDef,)) for n in ast.walk(fn) if n is not fn):
             continue
@@ -690,8 +713,14 @@ def _inline_new_helper_statements(tree: ast.Module, stem: str, ref: dict) -> int
         if not body or len(body) > 40:
             continue
         rets = [n for n in ast.walk(fn) if isinstance(n, ast.Return)]
+        yields = [n for n in ast.walk(fn) if isinstance(n, ast.Yield)]
+        if yields:
+            # a generator helper: one `yield E` as a statement, the last statement of the block it stands in, no return
+            if len(yields) == 1 and not rets and yields[0].value is not None:
+                generators[qn] = (fn, body, yields[0])
+            continue
         helpers[qn] = (fn, body, rets)
-    if not helpers:
+    if not helpers and not generators:
         return 0
     k = 0
     counter = [0]
@@ -703,17 +732,18 @@ def _inline_new_helper_statements(tree: ast.Module, stem: str, ref: dict) -> int
                 out.add(m_.id)
         return out
 
-    def expand(call, caller, cls, target_name=None):
+    def expand(call, caller, cls, target_name=None, want_generator=False):
         """-> (helper qn, binding statements, body copy) or None"""
         name, recv = None, None
-        if isinstance(call.func, ast.Name) and call.func.id in helpers:
+        table_ = generators if want_generator else helpers
+        if isinstance(call.func, ast.Name) and call.func.id in table_:
             name = call.func.id
         elif isinstance(call.func, ast.Attribute) and isinstance(call.func.value, ast.Name) and call.func.value.id in ("self", "cls") and cls \
-                and f"{cls}.{call.func.attr}" in helpers:
+                and f"{cls}.{call.func.attr}" in table_:
             name, recv = f"{cls}.{call.func.attr}", call.func.value
         if name is None:
             return None
-        fn, body, rets = helpers[name]
+        fn, body, rets = table_[name]
         if fn is caller:
             return None
         params = [a.arg for a in fn.args.args]
@@ -757,6 +787,8 @@ def _inline_new_helper_statements(tree: ast.Module, stem: str, ref: dict) -> int
             return all(id(m) in inside for m in ast.walk(caller) if isinstance(m, ast.Name) and m.id == nm)
         # the name the helper returns becomes the caller's assignment target when nothing else stands in the way
         returned = body[-1].value.id if body and isinstance(body[-1], ast.Return) and isinstance(body[-1].value, ast.Name) else None
+        if want_generator:
+            returned = rets.value.id if isinstance(rets, ast.Yield) and isinstance(rets.value, ast.Name) else None
         forced = None
         if target_name is not None and returned is not None and returned not in params \
                 and not any(isinstance(m, ast.Name) and m.id == target_name for a in binding.values() for m in ast.walk(a)) \
@@ -787,7 +819,7 @@ def _inline_new_helper_statements(tree: ast.Module, stem: str, ref: dict) -> int
         return name, binds, holder.body
 
     for qn, caller in funcs:
-        if qn in helpers:
+        if qn in helpers or qn in generators:
             continue
         cls = qn.split(".")[0] if "." in qn else None
         changed = True
@@ -813,6 +845,24 @@ def _inline_new_helper_statements(tree: ast.Module, stem: str, ref: dict) -> int
                                 if not (body and isinstance(body[-1], (ast.Return, ast.Raise))):
                                     body = body + [ast.copy_location(ast.Return(value=None), st)]
                                 repl = binds + body
+                        elif isinstance(st, ast.For) and not st.orelse and isinstance(st.iter, ast.Call) and generators \
+                                and not any(isinstance(y_, ast.Break) for b_ in st.body for y_ in ast.walk(b_)):
+                            # `for X in gen(args): BODY` with gen a new generator helper: gen's body with `yield E` replaced by `X = E; BODY`
+                            got = expand(st.iter, caller, cls, st.target.id if isinstance(st.target, ast.Name) else None, want_generator=True)
+                            if got is not None:
+                                name, binds, body = got
+                                ys = [(par_, f_, i_) for par_ in ast.walk(ast.Module(body=body, type_ignores=[])) for f_ in ("body", "orelse", "finalbody")
+                                      for i_, x_ in enumerate(getattr(par_, f_, []) if isinstance(getattr(par_, f_, None), list) else [])
+                                      if isinstance(x_, ast.Expr) and isinstance(x_.value, ast.Yield)]
+                                if len(ys) == 1 and ys[0][2] == len(getattr(ys[0][0], ys[0][1])) - 1:
+                                    par_, f_, i_ = ys[0]
+                                    yv = getattr(par_, f_)[i_].value.value
+                                    bind_x = ast.copy_location(ast.Assign(targets=[st.target], value=yv), st)
+                                    trivial_ = isinstance(st.target, ast.Name) and isinstance(yv, ast.Name) and yv.id == st.target.id
+                                    getattr(par_, f_)[i_:i_ + 1] = ([] if trivial_ else [bind_x]) + st.body
+                                    repl = binds + body
+                                else:
+                                    got = None
                         elif isinstance(st, ast.Expr) and isinstance(st.value, ast.Call):
                             got = expand(st.value, caller, cls)
                             if got is not None:
@@ -1717,6 +1767,32 @@ def _restyle_candidates(fn):
                         g_ = ast.copy_location(ast.If(test=x.test, body=[ast.copy_location(ast.Return(value=x.body), st)], orelse=[]), st)
                         blk[i:i + 1] = [g_, ast.copy_location(ast.Return(value=x.orelse), st)]
                     out.append(d)
+                # U: a loop over a literal table is its body written out once per row: `for a, b in (("x", tx), ("y", ty)): BODY` -> BODY[x, tx]; BODY[y, ty]
+                if isinstance(st, ast.For) and not st.orelse and isinstance(st.iter, (ast.Tuple, ast.List)) and 1 <= len(st.iter.elts) <= 6 \
+                        and not any(isinstance(y_, (ast.Break, ast.Continue, ast.Yield, ast.YieldFrom)) for b_ in st.body for y_ in ast.walk(b_)):
+                    tnames = [st.target.id] if isinstance(st.target, ast.Name) else \
+                        ([e_.id for e_ in st.target.elts] if isinstance(st.target, ast.Tuple) and all(isinstance(e_, ast.Name) for e_ in st.target.elts) else None)
+                    rows_ok = tnames is not None and all(
+                        (len(tnames) == 1 and isinstance(st.target, ast.Name) and _pure(r_)) or
+                        (isinstance(r_, (ast.Tuple, ast.List)) and len(r_.elts) == len(tnames) and all(_pure(c_) for c_ in r_.elts) and not isinstance(st.target, ast.Name))
+                        for r_ in st.iter.elts)
+                    rebinds_ = tnames is not None and any(isinstance(y_, ast.Name) and y_.id in tnames and not isinstance(y_.ctx, ast.Load) for b_ in st.body for y_ in ast.walk(b_))
+                    later_ = tnames is not None and any(isinstance(y_, ast.Name) and y_.id in tnames for z_ in blk[i + 1:] for y_ in ast.walk(z_))
+                    if rows_ok and not rebinds_ and not later_:
+                        def u_(blk=blk, i=i, st=st, tnames=tnames):
+                            import copy as _cp
+                            out_ = []
+                            for r_ in st.iter.elts:
+                                vals_ = [r_] if isinstance(st.target, ast.Name) else list(r_.elts)
+                                bind_ = dict(zip(tnames, vals_))
+
+                                class S_(ast.NodeTransformer):
+                                    def visit_Name(self, m_):
+                                        return _cp.deepcopy(bind_[m_.id]) if m_.id in bind_ and isinstance(m_.ctx, ast.Load) else m_
+                                for b_ in st.body:
+                                    out_.append(S_().visit(_cp.deepcopy(b_)))
+                            blk[i:i + 1] = out_
+                        out.append(u_)
                 # L: `xs.extend([E for v in S if c])` (list or generator) -> `for v in S: if c: xs.append(E)`
                 if isinstance(st, ast.Expr) and isinstance(st.value, ast.Call) and isinstance(st.value.func, ast.Attribute) and st.value.func.attr == "extend" \
                         and isinstance(st.value.func.value, ast.Name) and len(st.value.args) == 1 and not st.value.keywords \
